@@ -16,6 +16,42 @@ pub fn empty(name: &str, attrs: &[&str]) -> Node {
     Node::Elem { name: name.to_string(), empty: true, attrs: attrs.iter().map(|s| s.to_string()).collect(), kids: vec![] }
 }
 
+/// word-like string / byte-string literals of /repo/src/parser.rs (working tree, tests cut off)
+pub fn source_words() -> &'static Vec<String> {
+    static WORDS: std::sync::OnceLock<Vec<String>> = std::sync::OnceLock::new();
+    WORDS.get_or_init(|| {
+        let mut out: Vec<String> = vec![];
+        if let Ok(text) = std::fs::read_to_string("/repo/src/parser.rs") {
+            let text = match text.find("#[cfg(test)]") {
+                Some(i) => text[..i].to_string(),
+                None => text,
+            };
+            let b: Vec<char> = text.chars().collect();
+            let mut i = 0;
+            while i < b.len() {
+                if b[i] == '"' {
+                    let mut j = i + 1;
+                    while j < b.len() && b[j] != '"' && b[j] != '\n' {
+                        j += 1;
+                    }
+                    let lit: String = b[i + 1..j.min(b.len())].iter().collect();
+                    for w in lit.split(|c: char| c == ' ' || c == ',' || c == '=' || c == '?') {
+                        let ok = w.len() >= 2 && w.len() <= 40 && w.chars().all(|c| c.is_ascii_alphanumeric() || c == '_' || c == '-' || c == '.' || c == ':')
+                            && w.chars().next().map_or(false, |c| c.is_ascii_alphabetic() || c == '_');
+                        if ok && !out.contains(&w.to_string()) {
+                            out.push(w.to_string());
+                        }
+                    }
+                    i = j + 1;
+                } else {
+                    i += 1;
+                }
+            }
+        }
+        out
+    })
+}
+
 /// incidental detail of a serialisation: everything the output must not depend on (C11)
 #[derive(Clone)]
 pub struct Style {
@@ -43,12 +79,14 @@ impl Style {
     }
     fn text(&mut self) -> String {
         if self.no_blank_text {
-            return self.rng.pick(&["t", "some text", "1 &lt; 2", "x&amp;y", "Ünï", "0", "&company;", "AT&T", "a\nb"]).to_string();
+            // (blanks that are not XML white space are text: NBSP, NEL, IDEOGRAPHIC SPACE, EM SPACE -
+            // seeded change C03-m15 drops them under a trimming reader)
+            return self.rng.pick(&["t", "some text", "1 &lt; 2", "x&amp;y", "Ünï", "0", "&company;", "AT&T", "a\nb", "\u{a0}", "\u{3000}", "\u{85}", "\u{2003}\u{a0}"]).to_string();
         }
         if !self.ws_text_only && self.rng.chance(1, 10) {
             return self.long_text();
         }
-        let opts: &[&str] = if self.ws_text_only { &[" ", "\n", "\n  ", "\t"] } else { &["t", "some text", " ", "\n  ", "1 &lt; 2", "x&amp;y", "Ünï", "0", "&company;", "AT&T", "&nbsp;", "&#xZZ; &", "]]>", "&#169;"] };
+        let opts: &[&str] = if self.ws_text_only { &[" ", "\n", "\n  ", "\t"] } else { &["t", "some text", " ", "\n  ", "1 &lt; 2", "x&amp;y", "Ünï", "0", "&company;", "AT&T", "&nbsp;", "&#xZZ; &", "]]>", "&#169;", "\u{a0}", "\u{3000}", "\u{85}"] };
         self.rng.pick(opts).to_string()
     }
     fn cdata(&mut self) -> String {
@@ -59,6 +97,21 @@ impl Style {
         self.rng.pick(&opts).to_string()
     }
     fn misc(&mut self) -> String {
+        // words the parser's own source spells out (string and byte-string literals of
+        // src/parser.rs outside its tests): a comment or processing instruction made of them is
+        // still a comment or processing instruction (seeded change C06-m15: a "skip hint" PI)
+        let words = source_words();
+        if !words.is_empty() && self.rng.chance(1, 5) {
+            let a = self.rng.pick(words).clone();
+            let b = self.rng.pick(words).clone();
+            return match self.rng.below(5) {
+                0 => format!("<?{} {}?>", a, b),
+                1 => format!("<?{}?>", a),
+                2 => format!("<!--{}-->", a),
+                3 => format!("<!-- {} {} -->", a, b),
+                _ => format!("<?{} {}=\"{}\"?>", a, b, a),
+            };
+        }
         let opts = ["<!--c-->", "<!-- a <b> comment -->", "<?pi?>", "<?target data?>", "<!---->", "<!-- a -- b -->", "<!--- banner --->", "<?xml-stylesheet href=\"a.xsl\"?>", "<!-- <![CDATA[ x ]]> -->"];
         self.rng.pick(&opts).to_string()
     }
